@@ -2225,11 +2225,30 @@ impl<'store> AnnotationStore {
                         }
                     }
 
+                    //the subquery may return the same item in several rows (e.g. once for each
+                    //result of a deeper subquery), each item must be removed only once
+                    remove_annotations.sort_unstable();
+                    remove_annotations.dedup();
+                    remove_resources.sort_unstable();
+                    remove_resources.dedup();
+                    remove_datasets.sort_unstable();
+                    remove_datasets.dedup();
+                    remove_keys.sort_unstable();
+                    remove_keys.dedup();
+                    remove_data.sort_unstable();
+                    remove_data.dedup();
+
                     for resource in remove_resources {
                         self.remove(resource)?;
                     }
+                    for dataset in remove_datasets {
+                        self.remove(dataset)?;
+                    }
                     for annotation in remove_annotations {
-                        self.remove(annotation)?;
+                        //(it may already be gone: removing an earlier one cascades to the annotations that target it)
+                        if <AnnotationStore as StoreFor<Annotation>>::has(self, annotation) {
+                            self.remove(annotation)?;
+                        }
                     }
                     for (set, key) in remove_keys {
                         self.remove_key(set, key, true)?;
